@@ -1,6 +1,6 @@
 """C14 — message summaries partition the message list and count it faithfully (necessary conditions)."""
 import os
-from nx import sym, loops, listalg
+from nx import sym, loops, listalg, chrono_model as cm
 from nx.spec import *
 from rules import common
 
@@ -22,6 +22,34 @@ def call(name, *args):
     return ("call", name, tuple(args))
 
 
+def vcp_table(chk, prog):
+    """the VCP set is built from VolumeDataBlock::volume_coverage_pattern(): every number it accepts maps to the variant
+    that carries that number in its name"""
+    p = M + "digital_radar_data::volume_data_block::VolumeDataBlock::volume_coverage_pattern"
+    fn = prog.fn(p)
+    if fn is None:
+        chk.blind("R-TABLE", p, "accessor not found")
+        return
+    try:
+        t = sym.Evaluator(prog).eval_self_fn(p)
+    except sym.Undecided as e:
+        chk.blind("R-TABLE", p, "accessor undecided: %s" % e, fn.where())
+        return
+    rows, bad = 0, []
+    if not (t[0] == "cases" and t[1] == F("volume_coverage_pattern_number")):
+        chk.blind("R-TABLE", p, "accessor is not a table over volume_coverage_pattern_number: %s" % show(t)[:160], fn.where())
+        return
+    for rs, leaf in t[3]:
+        for lf in sym._leaves(leaf, []):
+            if isinstance(lf, tuple) and lf and lf[0] == "adt" and lf[2].startswith("VCP"):
+                rows += 1
+                if not all(lo == hi and lf[2] == "VCP%d" % lo for lo, hi in rs):
+                    bad.append("%s -> %s" % (rs, lf[2]))
+    chk.ob("R-TABLE", p, not bad, "every accepted pattern number n maps to the variant VCPn (%d rows)" % rows if not bad else
+           "pattern numbers map to the wrong variant: %s" % "; ".join(bad)[:200], fn.where(), key="vcp-table")
+    chk.floor("VCP table rows", rows, 6)
+
+
 def run(chk, tier):
     prog, info = common.program("all")
     common.note_extraction(chk, info, prog)
@@ -35,6 +63,10 @@ def run(chk, tier):
                        "the start/extend discipline; the VCP set receives the volume block's pattern; at end of input the open group is pushed. Maximality of runs "
                        "and the converse of is_continued as input/output facts are not derived.")
     chk.trust("slice::Iter/Enumerate yield (index, element) in order; Vec::push appends; HashSet::insert adds the element")
+    vcp_table(chk, prog)
+    # the groups' times and the collection-time range are the message headers' date-times: that accessor's closed form (C08)
+    from rules import c08
+    chk.floor("message-header date-time accessor", c08.accessor(chk, prog, cm.evaluator(prog), M + "message_header::MessageHeader::date_time", no_panic=True), 1)
     fn = prog.fn(FN)
     if fn is None:
         chk.blind("VN", FN, "summarize::messages not found")
